@@ -228,27 +228,95 @@ pub fn bases() -> Vec<ByronCase> {
     b1r.base = "B1r-redeem".into();
     b1r.utxo = vec![(IN0, BAddr::Redeem(0), 10_000_000), (IN1, BAddr::Redeem(1), 5_000_000)];
     b1r.wits = vec![BWit::RedeemValid(0)];
-    vec![b1, b1r]
+    // two inputs, each witnessed by its own key: pk + pk, pk + redeem (either order), redeem + redeem.
+    // The fee exemption of the Byron ledger holds only when EVERY input is a redeem address.
+    let two = |name: &str, a0: BAddr, a1: BAddr| {
+        let mut c = b1.clone();
+        c.base = name.into();
+        c.inputs = vec![IN0, IN1];
+        let w = |a: &BAddr| match a {
+            BAddr::Redeem(k) => BWit::RedeemValid(*k),
+            BAddr::Key(k) => BWit::Valid(*k),
+            BAddr::ShortKey => BWit::ShortKey,
+        };
+        c.wits = vec![w(&a0), w(&a1)];
+        c.utxo = vec![(IN0, a0, 10_000_000), (IN1, a1, 5_000_000)];
+        c
+    };
+    vec![
+        b1.clone(),
+        b1r,
+        two("B2-two-pk-inputs", BAddr::Key(0), BAddr::Key(1)),
+        two("B2m-pk+redeem-inputs", BAddr::Key(0), BAddr::Redeem(1)),
+        two("B2n-redeem+pk-inputs", BAddr::Redeem(0), BAddr::Key(1)),
+        two("B2r-two-redeem-inputs", BAddr::Redeem(0), BAddr::Redeem(1)),
+    ]
 }
 
-pub fn witness_alphabet(redeem: bool) -> Vec<BWit> {
-    if redeem {
-        vec![BWit::RedeemValid(0), BWit::RedeemCorrupt(0), BWit::RedeemValid(2), BWit::RedeemCorrupt(2), BWit::Valid(0)]
-    } else {
-        vec![BWit::Valid(0), BWit::CorruptSig(0), BWit::Valid(2), BWit::CorruptSig(2), BWit::WrongLenSig(0), BWit::ShortKey]
+fn is_redeem(a: &BAddr) -> bool {
+    matches!(a, BAddr::Redeem(_))
+}
+
+/// Witness alphabet of a base: for every input owner its valid and corrupted
+/// witness (of the address' own type), the valid witness of the OTHER type for
+/// the first owner, an unrelated valid and corrupt one, and (pk only) the
+/// wrong-length signature and the short key.
+pub fn witness_alphabet(base: &ByronCase) -> Vec<BWit> {
+    let mut v: Vec<BWit> = vec![];
+    let mut push = |w: BWit| {
+        if !v.contains(&w) {
+            v.push(w)
+        }
+    };
+    let owners: Vec<&BAddr> = base.inputs.iter().filter_map(|i| base.utxo.iter().find(|u| u.0 == *i).map(|u| &u.1)).collect();
+    for a in &owners {
+        match a {
+            BAddr::Redeem(k) => {
+                push(BWit::RedeemValid(*k));
+                push(BWit::RedeemCorrupt(*k));
+            }
+            BAddr::Key(k) => {
+                push(BWit::Valid(*k));
+                push(BWit::CorruptSig(*k));
+            }
+            BAddr::ShortKey => push(BWit::ShortKey),
+        }
     }
+    let any_redeem = owners.iter().any(|a| is_redeem(a));
+    let any_pk = owners.iter().any(|a| !is_redeem(a));
+    if any_redeem {
+        push(BWit::RedeemValid(2));
+        push(BWit::RedeemCorrupt(2));
+    }
+    if any_pk {
+        push(BWit::Valid(2));
+        push(BWit::CorruptSig(2));
+    }
+    match owners.first() {
+        Some(BAddr::Redeem(k)) => push(BWit::Valid(*k)),
+        Some(BAddr::Key(k)) if owners.len() > 1 => push(BWit::RedeemValid(*k)),
+        _ => {}
+    }
+    if owners.len() == 1 && any_pk {
+        push(BWit::WrongLenSig(0));
+        push(BWit::ShortKey);
+    }
+    v
 }
 
 pub fn deviations(base: &ByronCase, max_wits: usize) -> Vec<Dev<ByronCase>> {
     let mut d: Vec<Dev<ByronCase>> = vec![];
-    let redeem = base.base.starts_with("B1r");
-    let own = move |k: usize| if redeem { BAddr::Redeem(k) } else { BAddr::Key(k) };
+    let two = base.inputs.len() > 1;
+    let in_sum: u64 = base.inputs.iter().filter_map(|i| base.utxo.iter().find(|u| u.0 == *i).map(|u| u.2)).sum();
+    let t0 = base.utxo.first().map(|u| is_redeem(&u.1)).unwrap_or(false);
+    let t1 = base.utxo.get(1).map(|u| is_redeem(&u.1)).unwrap_or(false);
+    let own = |redeem: bool, k: usize| if redeem { BAddr::Redeem(k) } else { BAddr::Key(k) };
     // outputs
-    for (name, v) in [("0", 0u64), ("1", 1), ("inputs", 10_000_000), ("inputs+1", 10_000_001), ("2^63", 1 << 63), ("2^64-1", u64::MAX)] {
+    for (name, v) in [("0", 0u64), ("1", 1), ("inputs", in_sum), ("inputs+1", in_sum + 1), ("2^63", 1 << 63), ("2^64-1", u64::MAX)] {
         d.push(Dev::new(format!("out0={name}"), "out0", move |c: &mut ByronCase| if let Some(o) = c.outputs.get_mut(0) { o.1 = BCoin::Fixed(v) }));
         d.push(Dev::new(format!("change={name}"), "fee", move |c: &mut ByronCase| if let Some(o) = c.outputs.get_mut(1) { o.1 = BCoin::Fixed(v) }));
     }
-    for (name, f) in [("min-1", FeeSpec::MinPlus(-1)), ("min", FeeSpec::MinPlus(0)), ("min+1", FeeSpec::MinPlus(1)), ("0", FeeSpec::Exact(0))] {
+    for (name, f) in [("min-1", FeeSpec::MinPlus(-1)), ("min", FeeSpec::MinPlus(0)), ("min+1", FeeSpec::MinPlus(1)), ("0", FeeSpec::Exact(0)), ("1", FeeSpec::Exact(1))] {
         d.push(Dev::new(format!("fee={name}"), "fee", move |c: &mut ByronCase| if let Some(o) = c.outputs.get_mut(1) { o.1 = BCoin::Change(f) }));
     }
     d.push(Dev::new("outputs=[]", "outs", |c: &mut ByronCase| c.outputs.clear()));
@@ -259,15 +327,24 @@ pub fn deviations(base: &ByronCase, max_wits: usize) -> Vec<Dev<ByronCase>> {
     d.push(Dev::new("inputs=[missing]", "ins", |c: &mut ByronCase| c.inputs = vec![IN_MISSING]));
     d.push(Dev::new("inputs+=missing", "ins", |c: &mut ByronCase| c.inputs.push(IN_MISSING)));
     d.push(Dev::new("inputs+=dup", "ins", |c: &mut ByronCase| c.inputs.push(IN0)));
-    d.push(Dev::new("inputs+=T0#1(K1)", "ins", |c: &mut ByronCase| c.inputs.push(IN1)));
+    if two {
+        d.push(Dev::new("inputs=[T0#0]", "ins", |c: &mut ByronCase| c.inputs = vec![IN0]));
+        d.push(Dev::new("inputs=[T0#1]", "ins", |c: &mut ByronCase| c.inputs = vec![IN1]));
+        d.push(Dev::new("inputs=reversed", "ins", |c: &mut ByronCase| c.inputs.reverse()));
+        d.push(Dev::new("inputs+=dup(T0#1)", "ins", |c: &mut ByronCase| c.inputs.push(IN1)));
+    } else {
+        d.push(Dev::new("inputs+=T0#1", "ins", |c: &mut ByronCase| c.inputs.push(IN1)));
+    }
     // UTxO
     for (name, v) in [("0", 0u64), ("2^63", 1 << 63), ("2^64-1", u64::MAX)] {
         d.push(Dev::new(format!("utxo[T0#0].coin={name}"), "utxo0", move |c: &mut ByronCase| if let Some(u) = c.utxo.get_mut(0) { u.2 = v }));
         d.push(Dev::new(format!("utxo[T0#1].coin={name}"), "utxo1", move |c: &mut ByronCase| if let Some(u) = c.utxo.get_mut(1) { u.2 = v }));
     }
-    d.push(Dev::new("utxo[T0#0].addr=K1", "utxo0a", move |c: &mut ByronCase| if let Some(u) = c.utxo.get_mut(0) { u.1 = own(1) }));
+    d.push(Dev::new("utxo[T0#0].addr=K1", "utxo0a", move |c: &mut ByronCase| if let Some(u) = c.utxo.get_mut(0) { u.1 = own(t0, 1) }));
     d.push(Dev::new("utxo[T0#0].addr=shortkey", "utxo0a", |c: &mut ByronCase| if let Some(u) = c.utxo.get_mut(0) { u.1 = BAddr::ShortKey }));
-    d.push(Dev::new("utxo[T0#0].addr=other-type", "utxo0a", move |c: &mut ByronCase| if let Some(u) = c.utxo.get_mut(0) { u.1 = if redeem { BAddr::Key(0) } else { BAddr::Redeem(0) } }));
+    d.push(Dev::new("utxo[T0#0].addr=other-type", "utxo0a", move |c: &mut ByronCase| if let Some(u) = c.utxo.get_mut(0) { u.1 = own(!t0, 0) }));
+    d.push(Dev::new("utxo[T0#1].addr=other-type", "utxo1a", move |c: &mut ByronCase| if let Some(u) = c.utxo.get_mut(1) { u.1 = own(!t1, 1) }));
+    d.push(Dev::new("utxo[T0#1].addr=K0", "utxo1a", move |c: &mut ByronCase| if let Some(u) = c.utxo.get_mut(1) { u.1 = own(t1, 0) }));
     d.push(Dev::new("utxo=[]", "utxo", |c: &mut ByronCase| c.utxo.clear()));
     // environment
     d.push(Dev::new("magic=1", "magic", |c: &mut ByronCase| c.magic = 1));
@@ -276,22 +353,8 @@ pub fn deviations(base: &ByronCase, max_wits: usize) -> Vec<Dev<ByronCase>> {
     d.push(Dev::new("account-state=present", "acnt", |c: &mut ByronCase| c.with_account_state = true));
     d.push(Dev::new("arrays=definite", "form", |c: &mut ByronCase| c.indef = false));
     // witnesses: every list up to max_wits over the alphabet, in every order
-    let alpha = witness_alphabet(redeem);
-    let mut lists: Vec<Vec<BWit>> = vec![vec![]];
-    let mut frontier: Vec<Vec<BWit>> = vec![vec![]];
-    for _ in 0..max_wits {
-        let mut next = vec![];
-        for l in &frontier {
-            for a in &alpha {
-                let mut n = l.clone();
-                n.push(a.clone());
-                next.push(n);
-            }
-        }
-        lists.extend(next.iter().cloned());
-        frontier = next;
-    }
-    for l in lists {
+    let alpha = witness_alphabet(base);
+    for l in crate::devs::lists(&alpha, max_wits) {
         if l == base.wits {
             continue;
         }
@@ -300,5 +363,6 @@ pub fn deviations(base: &ByronCase, max_wits: usize) -> Vec<Dev<ByronCase>> {
         d.push(Dev::new(name, "wits", move |c: &mut ByronCase| c.wits = l.clone()).sized(n));
     }
     d.push(Dev::new("wits+=script", "wits+", |c: &mut ByronCase| c.wits.push(BWit::Script)));
+    d.push(Dev::new("wits+=WLS0", "wits+", |c: &mut ByronCase| c.wits.push(BWit::WrongLenSig(0))));
     d
 }
